@@ -858,7 +858,8 @@ func (r *TypeClassSummonContext) lookupTypeClassInstance(ctx CurrentContext, req
 						TypeArgs: nil,
 					}}, "Bytes")
 
-			if bytesInstance.target.IsRight() {
+			// a catch-all Given[T any] (clone.Given: the identity) is not a Bytes instance
+			if bytesInstance.target.IsRight() && !bytesInstance.isGivenAny() {
 				return bytesInstance
 			}
 			return r.namedLookup(ctx, req, "Slice")
